@@ -31,11 +31,53 @@ struct Shut {
     polled: bool,
 }
 
-pub const C13_FAULTS: &[&str] = &["token_dropped_unused", "pending_request_cancelled", "handler_panic_unwind", "woken_request_cancelled"];
+/// A connection whose task is advanced a few scheduler steps at a time, interleaved with runner operations.
+struct Conn {
+    ex: Exec,
+    shared: Shared,
+    runner: usize,
+    mode: u32,
+}
+
+fn start_conn(cx: &mut Ctx, token: Token, mode: u32) -> Conn {
+    // mode 0: client closes at once; 1: one request (keep-conn bit chosen); 2: handler panics
+    let mut wire = Vec::new();
+    if mode > 0 {
+        let role = cx.ch.one_of(&[RESPONDER, FILTER, AUTHORIZER]);
+        let keep = cx.ch.pick(2) as u8;
+        begin(1, role, keep, 0).encode(&mut wire);
+        Rec::new(PARAMS, 1, Vec::new(), 0).encode(&mut wire);
+        for &s in role_streams(role) {
+            if cx.ch.chance(1, 2) { Rec::new(s, 1, vec![7u8; 5], 3).encode(&mut wire); }
+            Rec::new(s, 1, Vec::new(), 0).encode(&mut wire);
+        }
+    }
+    let knobs = Knobs { read_style: cx.ch.pick(4), write_style: cx.ch.pick(4), read_pending: cx.ch.one_of(&[0u32, 4, 8]), write_pending: cx.ch.one_of(&[0u32, 6, 12]), deliver_style: cx.ch.pick(3), spurious_polls: 0 };
+    // the connection's own choice stream is seeded from the history's chooser (one draw), so the whole run stays a function of the choice list
+    let sub_seed = (u64::from(cx.ch.pick(1 << 30)) << 16) ^ 0xC13;
+    let mut sub = Ctx::new(Chooser::record(sub_seed), false);
+    sub.ch.keep_log = false;
+    // peer sends the request in up to two bursts
+    let cut = if wire.is_empty() { 0 } else { cx.ch.range(0, wire.len()) };
+    let segs = vec![Seg { end: cut, gate: Gate::Open }, Seg { end: wire.len(), gate: Gate::Open }];
+    let world = World::new(sub, knobs, wire, segs);
+    let shared: Shared = Arc::new(Mutex::new(world));
+    let mut ex = Exec::new(shared.clone());
+    if mode == 2 {
+        let handler = panic_handler(shared.clone());
+        ex.tasks.push(Task::new("conn", Box::pin(token.run(SimRead(shared.clone()), SimWrite(shared.clone()), handler))));
+    } else {
+        let handler = make_handler(shared.clone(), HandlerMode::Seq);
+        ex.tasks.push(Task::new("conn", Box::pin(token.run(SimRead(shared.clone()), SimWrite(shared.clone()), handler))));
+    }
+    Conn { ex, shared, runner: 0, mode }
+}
+
+pub const C13_FAULTS: &[&str] = &["connection_future_dropped", "token_dropped_unused", "pending_request_cancelled", "handler_panic_unwind", "woken_request_cancelled"];
 pub const C13_PROBES: &[&str] = &[
     "two_pending_two_releases_between_polls", "fresh_request_barged", "limit_reached", "request_ready_first_poll",
     "request_woken_then_ready", "clone_used", "run_to_completion", "shutdown_future_polled", "shutdown_ready_after_last_token",
-    "clone_shutdown_independent",
+    "clone_shutdown_independent", "connection_task_interleaved", "connection_task_finished", "conn_quiescent_unfinished",
 ];
 
 fn run_token(cx: &mut Ctx, token: Token, mode: u32, bufsize: usize, runner_shut: bool) -> Result<(), Violation> {
@@ -100,13 +142,14 @@ pub fn c13(cx: &mut Ctx) -> VResult {
     let mut pend: Vec<Pend> = Vec::new();
     let mut tokens: Vec<(Token, usize)> = Vec::new();
     let mut shuts: Vec<Shut> = Vec::new();
+    let mut conns: Vec<Conn> = Vec::new();
     let mut next_id = 0usize;
     let mut releases_since_poll = 0usize;
     let steps = cx.ch.range(6, 70);
     let mut history: Vec<String> = Vec::new();
     cx.nontrivial = true;
     for _step in 0..steps {
-        let live = tokens.len();
+        let live = tokens.len() + conns.len();
         let free = limit - live.min(limit);
         // choose an operation; bias towards building queues and releasing several tokens between polls
         let can_new = pend.len() < 5 && runners.iter().any(Option::is_some);
@@ -118,6 +161,9 @@ pub fn c13(cx: &mut Ctx) -> VResult {
             if !tokens.is_empty() { 3 } else { 0 },      // 4 run a token to completion
             if runners.iter().flatten().count() < 3 && runners.iter().any(Option::is_some) { 1 } else { 0 }, // 5 clone runner
             1,                                           // 6 shutdown a runner without outstanding requests / poll shutdown futures
+            if !tokens.is_empty() && conns.len() < 3 { 3 } else { 0 }, // 7 start a connection task (token lives inside it)
+            if !conns.is_empty() { 8 } else { 0 },       // 8 advance a connection task by a few scheduler steps
+            if !conns.is_empty() { 1 } else { 0 },       // 9 drop a connection task (its future is dropped mid-flight)
         ]);
         match op {
             0 => {
@@ -210,6 +256,64 @@ pub fn c13(cx: &mut Ctx) -> VResult {
                 history.push(format!("clone r{ri}"));
                 cx.ev("clone_runner", ri as u64, 0);
             }
+            7 => {
+                let j = cx.ch.pick(tokens.len() as u32) as usize;
+                let (t, tr) = tokens.remove(j);
+                let mode = cx.ch.weighted(&[1, 4, 1]) as u32;
+                let mut c = start_conn(cx, t, mode);
+                c.runner = tr;
+                history.push(format!("start_conn(mode {mode})"));
+                cx.ev("start_conn", u64::from(mode), 0);
+                cx.probe("connection_task_interleaved");
+                conns.push(c);
+            }
+            8 => {
+                let i = cx.ch.pick(conns.len() as u32) as usize;
+                let k = cx.ch.range(1, 12) as u64;
+                let c = &mut conns[i];
+                c.ex.budget = Some(k);
+                let end = c.ex.run(&mut |_, _| Vec::new());
+                cx.ev("step_conn", i as u64, k);
+                let done = c.ex.tasks[0].done();
+                history.push(format!("step_conn#{i}({k}){}", if done { "=done" } else { "" }));
+                if done || matches!(end, RunEnd::Quiescent | RunEnd::StepCap) {
+                    if !done {
+                        // nothing enabled but unfinished: a hang of the connection (reported by C07/C12; here just drop it)
+                        cx.probe("conn_quiescent_unfinished");
+                    }
+                    let c = conns.remove(i);
+                    let panicked = c.ex.tasks[0].panicked.clone();
+                    let shut = runners[c.runner].is_none();
+                    if c.mode == 2 && !shut {
+                        if let Some(p) = &panicked { vcheck!(p.contains("scripted handler panic"), "panic", "unexpected panic in connection: {p}"); }
+                    } else if let Some(p) = panicked {
+                        vfail!("panic", "Token::run", "{p}");
+                    }
+                    // merge the connection's event digest and statistics
+                    let Conn { ex, shared, .. } = c;
+                    drop(ex);
+                    let g = lock(&shared);
+                    cx.st.merge(&g.cx.st);
+                    cx.digest = fnv_u64(g.cx.digest, cx.digest);
+                    drop(g);
+                    releases_since_poll += 1;
+                    cx.probe("connection_task_finished");
+                }
+            }
+            9 => {
+                let i = cx.ch.pick(conns.len() as u32) as usize;
+                let c = conns.remove(i);
+                history.push(format!("drop_conn#{i}"));
+                cx.ev("drop_conn", i as u64, 0);
+                cx.fault("connection_future_dropped");
+                let Conn { ex, shared, .. } = c;
+                drop(ex);
+                let g = lock(&shared);
+                cx.st.merge(&g.cx.st);
+                cx.digest = fnv_u64(g.cx.digest, cx.digest);
+                drop(g);
+                releases_since_poll += 1;
+            }
             _ => {
                 // shutdown a runner that has no outstanding get_token futures (they borrow it), or poll a shutdown future
                 let cand: Vec<usize> = runners.iter().enumerate()
@@ -229,7 +333,7 @@ pub fn c13(cx: &mut Ctx) -> VResult {
                     }
                 }
                 for s in shuts.iter_mut().filter(|s| !s.done) {
-                    let live_of = tokens.iter().filter(|(_, r)| *r == s.runner).count();
+                    let live_of = tokens.iter().filter(|(_, r)| *r == s.runner).count() + conns.iter().filter(|c| c.runner == s.runner).count();
                     let waker = Waker::from(s.flag.clone());
                     let mut c = Context::from_waker(&waker);
                     let r = s.fut.as_mut().poll(&mut c);
@@ -252,7 +356,7 @@ pub fn c13(cx: &mut Ctx) -> VResult {
             }
         }
         // ---- invariants after every operation
-        let live = tokens.len();
+        let live = tokens.len() + conns.len();
         vcheck!(live <= limit, "c13_limit_exceeded", "{live} tokens alive with limit {limit}; history: {}", history.join(" "));
         let free = limit - live;
         let queued: Vec<&Pend> = pend.iter().filter(|p| p.polled).collect();
@@ -264,7 +368,7 @@ pub fn c13(cx: &mut Ctx) -> VResult {
         }
         // a shutdown future whose last token is gone must have been woken
         for s in shuts.iter().filter(|s| !s.done && s.polled) {
-            let live_of = tokens.iter().filter(|(_, r)| *r == s.runner).count();
+            let live_of = tokens.iter().filter(|(_, r)| *r == s.runner).count() + conns.iter().filter(|c| c.runner == s.runner).count();
             if live_of == 0 {
                 vcheck!(s.flag.wakes() > s.wakes_at_pending, "c14_shutdown_not_woken", "last token of runner {} dropped but its shutdown future was not woken; history: {}", s.runner, history.join(" "));
             }
